@@ -80,12 +80,12 @@ Delta == [][\A v \in 1..V :
             /\ piV'[v].b - a.b = au /\ piV'[v].t - a.t = au * blk.nt
             /\ piV'[v].p - a.p = au * Len(blk.pre) /\ piV'[v].d - a.d = au * PreOctets(blk)
             /\ piV'[v].g - a.g \in {0, 1} /\ piV'[v].a - a.a = Cardinality({k \in 1..Len(blk.as) : blk.as[k].v = v - 1})]_vars
-\* a signer of a guarantee of the current rotation is credited; nobody is credited without a signing key
+\* a signer of a guarantee of the current rotation is credited; at most one validator is credited per (guarantee, signer)
 Credit == [][LET blk == ep'[Len(ep')]
                  a == IF Len(ep') = 1 THEN [v \in 1..V |-> ZeroVal] ELSE piV
                  credited == {v \in 1..V : piV'[v].g = a[v].g + 1} IN
              /\ \A k \in 1..Len(blk.gs) : blk.gs[k].slot \div R = blk.slot \div R => \A q \in SetOfSeq(blk.gs[k].sigs) : (q + 1) \in credited
-             /\ Cardinality(credited) <= Cardinality(UNION {SetOfSeq(blk.gs[k].sigs) : k \in 1..Len(blk.gs)})
+             /\ Cardinality(credited) <= SumSeq([k \in 1..Len(blk.gs) |-> Len(blk.gs[k].sigs)])      \* one key per (guarantee, signer)
              /\ (blk.gs = <<>> => credited = {})]_vars
 \* epoch change: current becomes previous and is reset
 Rollover == [][IF tau' \div E # tau \div E THEN piL' = piV ELSE piL' = piL]_vars
